@@ -290,9 +290,9 @@ func finishEq(prop, tier string, seed int64, rule string, sc *work.Scratch, evs 
 			confirmed++
 			if len(vlines) < 10 {
 				rp := map[string]any{"property": prop, "kind": "equal-output", "class": e.Class,
-					"variant_1": map[string]any{"desc": first.Desc, "files": first.files, "entries": first.entry, "options": first.cfg, "ok": first.OK, "error": first.err, "output_key": first.Key},
+					"variant_1":       map[string]any{"desc": first.Desc, "files": first.files, "entries": first.entry, "options": first.cfg, "ok": first.OK, "error": first.err, "output_key": first.Key},
 					"variant_differs": map[string]any{"desc": v.Desc, "files": v.files, "entries": v.entry, "options": v.cfg, "ok": v.OK, "error": v.err, "output_key": v.Key},
-					"expected": "byte-identical output", "how_to_rerun": "bin/vcheck replay " + prop + " <this file>"}
+					"expected":        "byte-identical output", "how_to_rerun": "bin/vcheck replay " + prop + " <this file>"}
 				b, _ := json.MarshalIndent(rp, "", " ")
 				p := filepath.Join(dir, fmt.Sprintf("seed%d-class%d-variant%d.json", seed, r.L, r.I))
 				_ = os.WriteFile(p, b, 0o644)
